@@ -1,7 +1,7 @@
 (* C03 - codon-level mutators act on exactly the in-frame codons inside the region.
    Only statements, closed by `exact`, and their assumptions. *)
 From VV Require Import Model.Base Model.Pattern Model.Seq Model.CodonTable Model.Transcript Model.Mutators
-  Spec.PatternSpec Spec.CodonSpec Spec.RegionSpec Proofs.CodonTableProofs Proofs.CodonProofs Proofs.RegionProofs Generated.DefaultTable Generated.KernelsFrame Proofs.KernelFrameEquiv Generated.KernelsLift Proofs.KernelLiftEquiv Model.MutatorsGlue Model.Cdna Proofs.CdnaProofs Model.LiftExons Proofs.LiftExonsProofs Model.Gtf Proofs.GtfProofs.
+  Spec.PatternSpec Spec.CodonSpec Spec.RegionSpec Proofs.CodonTableProofs Proofs.CodonProofs Proofs.RegionProofs Generated.DefaultTable Generated.KernelsFrame Proofs.KernelFrameEquiv Generated.KernelsLift Proofs.KernelLiftEquiv Model.MutatorsGlue Model.Cdna Proofs.CdnaProofs Model.LiftExons Proofs.LiftExonsProofs Model.Gtf Proofs.GtfProofs Generated.KernelsAnnot Proofs.KernelAnnotEquiv.
 
 (* the codon windows produced for a region cut by Transcript._get_cds_seq are exactly the triplets of the annotated
    reading frame (strand-aware, from the GTF frame of the exon) whose three bases lie inside the region: every frame,
@@ -178,6 +178,11 @@ Example C03_gtf_example :
   cds_ascending [mkCdsF 10 20 0; mkCdsF 30 40 1].
 Proof. split; [vm_compute; reflexivity|]. split; [vm_compute; reflexivity|]. unfold cds_ascending; cbn; repeat split; try lia; intros x [<-|[]]; cbn; lia. Qed.
 
+(* the in-frame part of a coding region the codon-level mutators window (CdsSeq.get_inner_cds_range, translated from cds_seq.py on every run;
+   None when the region holds no complete codon - the case repaired in cae8953) is the model's, for every coding sequence *)
+Theorem C03_inner_cds_range_matches_source : forall c, k_cds_inner_range c = inner_cds_range c.
+Proof. exact k_cds_inner_range_eq. Qed.
+
 Print Assumptions C03_codon_windows_exact.
 Print Assumptions C03_inframe_exact.
 Print Assumptions C03_top_replacement_exact.
@@ -198,3 +203,4 @@ Print Assumptions C03_gtf_exons_plus.
 Print Assumptions C03_gtf_exons_minus.
 Print Assumptions C03_gtf_example.
 Print Assumptions C03_exon_codon_matches_source.
+Print Assumptions C03_inner_cds_range_matches_source.
